@@ -307,6 +307,20 @@ func caseCLI(t *testing.T, tp *simrt.Tape, c *Ctx) (res Result) {
 				places = append(places, v)
 			}
 		}
+		if len(sp) == 0 {
+			// the -debug text is not part of the property: when the spawn
+			// lines cannot be recognised the placements are unobservable and
+			// only the tally's self-consistency is checked
+			res.stat("probe.random-placement-unobservable", 1)
+			lines := strings.Split(strings.TrimRight(out, "\n"), "\n")
+			if len(lines) >= 2 {
+				var a, b, c2, d int
+				if n, _ := fmt.Sscanf(strings.Join(lines[len(lines)-2:], "\n")+"\n", "%d %d\n%d %d\n", &a, &b, &c2, &d); n == 4 && (a+c2+b != rounds || b != d) {
+					res.add("C17", "C17 tally rounds are not counted exactly once (wins1+wins2+ties != rounds or ties differ)", map[string]any{"args": full, "stdout": tail(out, 200)})
+				}
+			}
+			return
+		}
 		if len(places) != rounds {
 			res.add("C17", "C17 number of battles run differs from the rounds asked for", map[string]any{"args": full, "rounds": rounds, "spawns_of_warrior_2": len(places)})
 			return
